@@ -6,19 +6,21 @@ structure Inv (st : St) : Prop where
   own_pc : ∀ s c, st.owner s = some c → st.clears c = 0 ∧ 1 ≤ s ∧ s < st.cap ∧
     (st.pc c = .acquired s ∨ st.pc c = .waiting s ∨ (st.abandoned c = true ∧ ∃ o, st.pc c = .done o))
   pc_own : ∀ c s, (st.pc c = .acquired s ∨ st.pc c = .waiting s) → st.owner s = some c
-  wire_own : ∀ s, st.wire s = .none ∨ ∃ c, (st.wire s = .pending c ∨ st.wire s = .answered c) ∧ st.owner s = some c ∧ st.pc c ≠ .acquired s
+  wire_own : ∀ s, st.wire s = .none ∨ ∃ c, (st.wire s = .pending c ∨ ∃ k w, st.wire s = .answered c k w) ∧ st.owner s = some c ∧ st.pc c ≠ .acquired s
   acq_wire : ∀ c s, st.pc c = .acquired s → st.wire s = .none
   clears_le : ∀ c, st.clears c ≤ 1
   idle_clears : ∀ c, st.pc c = .idle → st.clears c = 0
-  resp_origin : ∀ d c, st.pc d = .done (.resp c) → c = d
-  resp_clear : ∀ d c, st.pc d = .done (.resp c) → st.clears d = 1
+  resp_origin : ∀ d c k w, st.pc d = .done (.resp c k w) → c = d
+  resp_clear : ∀ d c k w, st.pc d = .done (.resp c k w) → st.clears d = 1
   own_unique : ∀ s s' c, st.owner s = some c → st.owner s' = some c → s = s'
+  ans_sent : ∀ s c k w, st.wire s = .answered c k w → st.sent c = some (k, w)
+  resp_sent : ∀ d c k w, st.pc d = .done (.resp c k w) → st.sent c = some (k, w)
 
 theorem inv_init (cap : Nat) : Inv (init cap) := by
   constructor <;> simp [init]
 
 macro "close_inv" h:ident : tactic => `(tactic| (
-  obtain ⟨h1, h2, h3, h4, h5, h6, h7, h8, h9⟩ := $h
+  obtain ⟨h1, h2, h3, h4, h5, h6, h7, h8, h9, h10, h11⟩ := $h
   constructor <;> simp only [upd] <;> grind))
 
 theorem inv_step (st st' : St) (a : Act) (h : Inv st) (hs : step st a = some st') : Inv st' := by
@@ -53,15 +55,23 @@ theorem inv_step (st st' : St) (a : Act) (h : Inv st) (hs : step st a = some st'
     split at hs
     · rename_i s hc; injection hs with hs; subst hs; close_inv h
     · simp at hs
-  | answer s =>
+  | answer s k w =>
     simp only [step] at hs
     split at hs
     · rename_i c hc; injection hs with hs; subst hs; close_inv h
     · simp at hs
+  | stray s =>
+    simp only [step] at hs
+    split at hs
+    · injection hs with hs; subst hs; exact h
+    · simp at hs
+  | event =>
+    simp only [step] at hs
+    injection hs with hs; subst hs; exact h
   | deliver s =>
     simp only [step] at hs
     split at hs
-    · rename_i c hw
+    · rename_i c k w hw
       split at hs
       · simp at hs
       · split at hs
@@ -108,7 +118,7 @@ theorem done_step (st st' : St) (a : Act) (c : Nat) (o : Outcome) (hd : st.pc c 
   cases a <;> simp only [step] at hs <;> (repeat' split at hs) <;>
     first
     | (simp at hs; done)
-    | (injection hs with hs; subst hs; simp only [upd]; grind)
+    | (injection hs with hs; subst hs; (try simp only [upd]); grind)
 
 theorem done_run : ∀ (as : List Act) (st st' : St) (c : Nat) (o : Outcome), st.pc c = .done o →
     run st as = some st' → st'.pc c = .done o
